@@ -2990,6 +2990,28 @@ fn case_repeat_box_clone_5() -> Result<(), String> {
     ck!(b.len() == 5 && b.iter().all(|x| x == "moved2"), "box_arr![s; n] with a moved String of length 5");
     Ok(())
 }
+fn case_repeat_noncopy_0() -> Result<(), String> {
+    take_log(); take_drops();
+    { let d: GA<D, N<0>> = arr![ld(5); N<0>]; ck!(d.len() == 0, "arr![x; N] with a drop-tracked x, length 0");
+      ck!(take_drops().len() == 1 - 0, "arr![x; N] (type-level length 0): x was dropped while the array is alive"); ck!(d.iter().all(|x| x.0 == 5), "contents"); }
+    ck!(take_drops().len() == 0 && take_log() == vec![5], "arr![x; N] (type-level length 0) with a drop-tracked x: x must be evaluated once and dropped exactly once in total");
+    take_log(); take_drops();
+    { let d: GA<D, N<0>> = arr![ld(6); 0]; ck!(d.len() == 0, "arr![x; n] with a drop-tracked x, length 0");
+      ck!(take_drops().len() == 1 - 0, "arr![x; n] (constant length 0): x was dropped while the array is alive"); }
+    ck!(take_drops().len() == 0 && take_log() == vec![6], "arr![x; n] (constant length 0) with a drop-tracked x: x must be evaluated once and dropped exactly once in total");
+    Ok(())
+}
+fn case_repeat_noncopy_1() -> Result<(), String> {
+    take_log(); take_drops();
+    { let d: GA<D, N<1>> = arr![ld(5); N<1>]; ck!(d.len() == 1, "arr![x; N] with a drop-tracked x, length 1");
+      ck!(take_drops().len() == 1 - 1, "arr![x; N] (type-level length 1): x was dropped while the array is alive"); ck!(d.iter().all(|x| x.0 == 5), "contents"); }
+    ck!(take_drops().len() == 1 && take_log() == vec![5], "arr![x; N] (type-level length 1) with a drop-tracked x: x must be evaluated once and dropped exactly once in total");
+    take_log(); take_drops();
+    { let d: GA<D, N<1>> = arr![ld(6); 1]; ck!(d.len() == 1, "arr![x; n] with a drop-tracked x, length 1");
+      ck!(take_drops().len() == 1 - 1, "arr![x; n] (constant length 1): x was dropped while the array is alive"); }
+    ck!(take_drops().len() == 1 && take_log() == vec![6], "arr![x; n] (constant length 1) with a drop-tracked x: x must be evaluated once and dropped exactly once in total");
+    Ok(())
+}
 fn case_misc() -> Result<(), String> {
     let a = arr![1u8; U4096]; ck!(a.len() == 4096 && a.iter().all(|x| *x == 1), "arr![x; U4096]");
     let b = box_arr![1u8; U4096]; ck!(*b == a, "box_arr![x; U4096]");
@@ -3266,6 +3288,8 @@ fn main() {
         ("repeat_box_clone_1", case_repeat_box_clone_1),
         ("repeat_box_clone_2", case_repeat_box_clone_2),
         ("repeat_box_clone_5", case_repeat_box_clone_5),
+        ("repeat_noncopy_0", case_repeat_noncopy_0),
+        ("repeat_noncopy_1", case_repeat_noncopy_1),
         ("misc", case_misc),
     ];
     let mut bad = 0; for (n, f) in &cases { match std::panic::catch_unwind(f) { Ok(Ok(())) => {}, Ok(Err(e)) => { bad += 1; println!("FAIL {n}: {e}"); }, Err(_) => { bad += 1; println!("FAIL {n}: panicked"); } } }
